@@ -83,6 +83,11 @@ CHECKS["C15"] = ("exploration",
  "The full product of 57 queries (values of each type, several outputs, empty, errors at first/middle/last position and with string/null/object payloads, halt, halt_error with and without codes 0/1/5/256/257/-1, strings with NUL at every position and newlines, falsy last outputs, input-consuming queries, parse and compile errors) x input streams of 0..3 documents (thorough 0..4) from 6 document kinds with optional malformed tails x all 512 subsets of {-r, -j, --raw-output0, -c, --tab, --indent 1, -e, -n, -s} is run in-process and compared byte for byte with a reference command model: the library's outputs per input, rendered by Marshal + json.Indent in the selected unit, raw strings, the selected terminator, --raw-output0 rejecting NUL, halt semantics, stderr non-empty iff a diagnostic is due, exit status per the documented table (last error wins, modulo 256). All distributions of three pieces (valid or malformed) over up to three files and stdin, in main-loop, -n [inputs] and -s modes; a deterministic slice through the real binary.",
  "The layout of json.Indent is the reference layout (C12 ties the command's encoder to Marshal independently).",
  "DESIGN.md §4 C15")
+CHECKS["C16"] = ("fault_enumeration",
+ "exhaustive enumeration of documents of a shape grammar, of every truncation byte, of stream splits and read-chunk patterns",
+ "Every JSON document of a shape grammar (depth <= 2, width <= 2, 4 scalar kinds, duplicate-free objects over 3 keys in both key orders, empty containers at every position; thorough adds depth 3 over a representative subset) in 4 white-space styles is streamed: the --stream events must equal the reference tostream of the document in document order, fromstream must rebuild the document, tostream must equal the events of the key-sorted document, --stream -s must collect the same events. EVERY truncation byte of every document <= 60 bytes is enumerated under --stream (the events emitted must be a prefix of the full event list, contain every event whose completing token lies before the cut, and be followed by exactly one error), default and -s modes. Streams of 1..3 documents x 4 separators x 8 read-chunk patterns (1, 7, 512, 4096, 16383, 16384, 16385, all at once): -s . = -n [inputs], in-order exactly-once consumption by input/inputs, input past the end, every split over files and stdin, a malformed document after the valid ones (six kinds). -R/-Rs/-Rn/-Rsn over texts incl. CRLF, NUL, invalid UTF-8 and lines of 4095/4096/5000/70000 bytes x the chunk patterns. --arg/--argjson/--slurpfile/--rawfile/--args/--jsonargs bindings incl. the same name bound twice within and across flag kinds; -f file.",
+ "The in-process driver with a chunked non-seekable reader stands for a pipe; a number cut short is itself a number, so the last event before a cut may carry a prefix of the literal.",
+ "DESIGN.md §4 C16")
 NOT_YET = "check not built yet (work in progress in this session); see DESIGN.md for the planned exploration"
 
 def commits():
